@@ -25,7 +25,9 @@ RULE = ("ENUMERATED matrix: every raw type (10 numeric x 27 scalings: none, Line
         "in which the channel is absent), iteration, .data. RANDOM: C13 scale graphs incl. no-op scales, C01 files, DAQmx "
         "files. Oracle: result.dtype == channel.dtype up to byte order (object for strings, datetime64[us] for timestamps "
         "unless raw), empty results included, and a full read has len(channel) elements. Non-trivial: scaled channel, empty "
-        "result, or non-float64 raw type.")
+        "result, or non-float64 raw type."
+        ' Windows and slices are judged again right after each integer index, and full reads, windows and slices must '
+        'be NumPy arrays (not lists).')
 ASSUMPTIONS = [
     "dtype equality is up to byte order (in-memory byte order of a chunk is representation, not type)",
     "with raw_timestamps=True timestamp channels are only required to yield TimestampArray for non-empty results",
